@@ -25,6 +25,7 @@ func envSettings(tier string) []envSetting {
 		{name: "GOMAXPROCS=2+busy-peer", procs: 2, busy: true},
 		{name: "GOMAXPROCS=3", procs: 3},
 		{name: "GOMAXPROCS=7", procs: 7},
+		{name: "GOMAXPROCS=61", procs: 61}, // more Ps than this machine has CPUs (a big server, or runtime.GOMAXPROCS(61))
 	}
 	if tier == "thorough" {
 		s = append(s,
